@@ -179,7 +179,7 @@ def run(pid, tier):
     NAT = e2.NativeEval()
     h = h_validate()
     h.models_cls = lambda: ValidateModels(prog)
-    res = e2.run_harness(prog, h, keep_raw=True)
+    res = e2.run_with_raw(prog, h)
     for model, r in res.raw_witnesses[:8]:
         w = witness_json(model, r)
         nk, nv = NAT.call("validate", [w])
@@ -208,7 +208,7 @@ def run(pid, tier):
             rep.mismatches.append("validate_verdict: solver witness did not reproduce natively: %s → %s" % (w, nv))
     e2.record(rep, h, res)
     hc = h_conversion()
-    resc = e2.run_harness(prog, hc, keep_raw=True)
+    resc = e2.run_with_raw(prog, hc)
     for model, r in resc.raw_witnesses[:4]:
         v = r.ctx.notes["variant"]
         # no native stub can fabricate a subprocess::ExitStatus without spawning: replay = a real bash killed by a signal
